@@ -148,7 +148,7 @@ func (c *Ctx) pinnedRootD(f *ssa.Function, d int) *ssa.Function {
 		c.callersOf = map[*ssa.Function][]*ssa.Function{}
 		for _, g := range c.Fns {
 			g := g
-			allInstrs(g, func(in ssa.Instruction) {
+			allInstrsIn(g, func(in ssa.Instruction) {
 				ci, ok := in.(ssa.CallInstruction)
 				if !ok {
 					return
